@@ -26,7 +26,7 @@ BadOf(ev) == UNION { { <<b[1], b[2], ev.vars[k].sk>> : b \in VarBad(ev, ev.vars[
 Report(ev) ==
   LET b == BadOf(ev)
       keys == {<<x[1], x[3]>> : x \in b}
-  IN \A kk \in keys : LET f == CHOOSE x \in b : x[1] = kk[1] /\ x[3] = kk[2] IN PrintT(<<"BAD", ev.id, f[1], f[2], f[3], "plain">>)
+  IN \A kk \in keys : LET f == CHOOSE x \in b : x[1] = kk[1] /\ x[3] = kk[2] IN PrintT("BAD|" \o ev.id \o "|" \o f[1] \o "|" \o ToString(f[2]) \o "|" \o f[3] \o "|plain")
 Init == l = 1 /\ nbad = 0
 Next == /\ l <= Len(T) /\ l' = l + 1
         /\ LET b == BadOf(T[l]) IN nbad' = IF b = {} THEN nbad ELSE IF Report(T[l]) THEN nbad + 1 ELSE nbad
